@@ -55,6 +55,23 @@ def r1_sql_scoping(ctx):
                 else:
                     r.violation(key, st.where(), "INSERT into an event table does not name the owner column: " + st.describe(), work=len(st.clauses))
                 continue
+            # sub-selects on an event table must be scoped to the owner as well
+            sub_bad = None
+            for m in re.finditer(r"\(\s*SELECT\b", where_txt, re.I):
+                depth, j = 1, m.end()
+                while j < len(where_txt) and depth:
+                    depth += {"(": 1, ")": -1}.get(where_txt[j], 0)
+                    j += 1
+                seg = where_txt[m.end():j]
+                wi = seg.upper().find("WHERE")
+                cond = seg[wi:] if wi >= 0 else ""
+                if not ("\ufffd" in cond or any(re.search(r"\b%s\b" % c, cond) for c in owner_cols)):
+                    sub_bad = seg.strip()[:80]
+            if sub_bad is not None:
+                r.violation(key + "|subquery", st.where(),
+                            "a sub-select inside the %s on an event table is not restricted to the owning log (`%s`): it can pick a row of another log with the same commit hash" % (st.kind.upper(), sub_bad),
+                            work=len(st.clauses))
+                continue
             if not (scoped_owner or scoped_pk):
                 r.violation(key, st.where(),
                             "%s on an event table is not restricted to the owning log (no %s / %s in WHERE): it touches byte-identical events of sibling logs and earlier duplicates — %s" % (
